@@ -1,7 +1,7 @@
 (* C04 — With backpressure the stream is an exact, ordered edit script.
    Theorems only; stated for an arbitrary message algebra, callbacks, read mask and history. *)
 From SC Require Import Base.Prelude Resource.Impl Resource.Spec Resource.Pull Resource.ImplProofs
-  Resource.SpecProofs Resource.PullProofs Resource.Flat Resource.Judge.
+  Resource.SpecProofs Resource.PullProofs Resource.Pull04Proofs Resource.Flat Resource.Judge.
 
 Section C04.
   Variable M : Type.
@@ -103,8 +103,89 @@ Section C04.
   Theorem C04_pull_id_closed_iff_removed : forall id (cs : list (cchange M)),
     snd (pull_id_from id cs) = existsb (fun c => for_id id c && ends c) cs.
   Proof. intros. apply pull_id_closed_iff. Qed.
+
+  (* ---- whole histories: every call sequence from every sorted contents ---- *)
+  (* every call of a history publishes nothing or exactly one event; a failed call publishes nothing *)
+  Theorem C04_history_one_event_per_effective_write : forall ops s s' outs,
+    run spec_step s ops = (s', outs) -> sorted str_ltb (c_items s) ->
+    Forall (fun p => (snd p = [] \/ exists e, snd p = [e] /\ failed (fst p) = false) /\
+                     (failed (fst p) = true -> snd p = [])) outs.
+  Proof. intros. eapply history_one_event_per_effective_write; eauto. Qed.
+
+  (* a subscriber opened at any point of a history receives the seed of the contents at that point,
+     then exactly the events of the calls made afterwards, in call order, projected by its read mask *)
+  Theorem C04_history_stream : forall (ro : ropts M rmask) ops s s' outs,
+    ro_include ro = None -> run spec_step s ops = (s', outs) ->
+    pull_collection r_filter None s ro (flat_map snd outs) =
+    (if ro_updates_only ro then [] else seeds r_filter ro (c_items s)) ++
+    flat_map (fun p => map (sent r_filter ro) (snd p)) outs.
+  Proof. intros. eapply history_stream; eauto. Qed.
+
+  (* ... and what it has folded from that stream is the final contents as List reports them *)
+  Theorem C04_history_fold_is_final_list : forall (ro : ropts M rmask) ops s s' outs,
+    ro_include ro = None -> ro_updates_only ro = false -> sorted str_ltb (c_items s) ->
+    run spec_step s ops = (s', outs) ->
+    forall id,
+      vlookup id (fold_view (pull_collection r_filter None s ro (flat_map snd outs))) =
+      vlookup id (c_list r_filter s' (ro_mask ro) None).
+  Proof.
+    intros ro ops s s' outs RI RU Hs Hr id. rewrite <- RI.
+    eapply filtered_fold_is_filtered_list; eauto.
+  Qed.
+
+  (* ---- a collection with an equivalence: applied to what the subscriber is SENT ---- *)
+  (* the stream is the seed followed by exactly those projected events whose projected old and new
+     values are not equivalent, in order *)
+  Theorem C04_collection_equivalence_exact : forall cmp (ro : ropts M rmask) (s : cstate M) evs,
+    ro_include ro = None ->
+    pull_collection r_filter (Some cmp) s ro evs =
+    (if ro_updates_only ro then [] else seeds r_filter ro (c_items s)) ++
+    filter (fun c => negb (cmp (cc_old c) (cc_new c))) (map (sent r_filter ro) evs).
+  Proof. intros. apply collection_stream_with_equivalence. assumption. Qed.
+
+  (* a write that changes only what the read mask hides is not delivered when the equivalence is
+     reflexive (WithNoDuplicates and every cmp.Message are) *)
+  Theorem C04_masked_out_write_suppressed : forall cmp (ro : ropts M rmask) (e : cevent M),
+    ro_include ro = None -> (forall x, cmp x x = true) ->
+    option_map (filt r_filter ro) (ce_old e) = option_map (filt r_filter ro) (ce_new e) ->
+    c_forward_gen r_filter (Some cmp) false false ro [e] = [].
+  Proof. intros. apply masked_out_write_suppressed; assumption. Qed.
+
+  Theorem C04_visible_write_delivered : forall cmp (ro : ropts M rmask) (e : cevent M),
+    ro_include ro = None ->
+    cmp (option_map (filt r_filter ro) (ce_old e)) (option_map (filt r_filter ro) (ce_new e)) = false ->
+    c_forward_gen r_filter (Some cmp) false false ro [e] =
+    [mkCC (ce_id e) (ce_time e) (ce_kind e) (option_map (filt r_filter ro) (ce_old e))
+          (option_map (filt r_filter ro) (ce_new e)) false false].
+  Proof. intros. apply visible_write_delivered; assumption. Qed.
+
+  (* ---- change times: the explicit write time WHATEVER it is (zero time, epoch, past, future), else the clock ---- *)
+  Theorem C04_value_event_time : forall (s : vstate M) msg (o : wopts M writer) s' nv ev,
+    spec_v_set m_eqb m_empty w_validate w_merge clock_at s msg o = (s', inl nv, ev) ->
+    let t := match wo_time o with Some t0 => t0 | None => clock_at (v_reads s) end in
+    ev = [mkVE nv t] /\ v_val s' = Some nv /\ v_time s' = t.
+  Proof. intros. eapply value_set_event; eauto. Qed.
+
+  Theorem C04_delete_event : forall s id0 (o : wopts M writer) s' body ev,
+    spec_c_delete m_eqb clock_at idfun s id0 o = (s', Some body, None, ev) ->
+    ev = [mkCE (apply_id idfun id0) (match wo_time o with Some t0 => t0 | None => clock_at (c_reads s) end)
+               KRemove (Some body) None].
+  Proof.
+    intros s id0 o s' body ev H. apply delete_outcomes in H. simpl in H.
+    destruct H as [(_ & _ & Hr & _)|[(it & code & _ & He & _)|(it & t & _ & _ & Hr & _ & Ht & Hev & _)]];
+      try discriminate.
+    inversion Hr. subst. reflexivity.
+  Qed.
 End C04.
 
+Print Assumptions C04_history_one_event_per_effective_write.
+Print Assumptions C04_history_stream.
+Print Assumptions C04_history_fold_is_final_list.
+Print Assumptions C04_collection_equivalence_exact.
+Print Assumptions C04_masked_out_write_suppressed.
+Print Assumptions C04_visible_write_delivered.
+Print Assumptions C04_value_event_time.
+Print Assumptions C04_delete_event.
 Print Assumptions C04_one_event_per_effective_write.
 Print Assumptions C04_no_event_for_failed_write.
 Print Assumptions C04_kind_and_old_new.
@@ -142,3 +223,33 @@ Example C04_nonvacuous :
   [("b"%string, KAdd, true, true); ("a"%string, KAdd, false, false);
    ("b"%string, KUpdate, false, false); ("a"%string, KRemove, false, false)].
 Proof. vm_compute. reflexivity. Qed.
+
+(* non-vacuity of the equivalence theorems: the equivalences of the executed family are reflexive,
+   and a no-duplicates collection pulled with read mask [a] does not deliver the write that changes
+   only b, but delivers the next one that changes a *)
+Example C04_nonvacuous_equivalence_reflexive : forall e x, interp_eqv e x x = true.
+Proof.
+  intros [|f] [m|]; simpl; try reflexivity.
+  - unfold fmsg_eqb. rewrite !Z.eqb_refl. reflexivity.
+  - apply Z.eqb_refl.
+Qed.
+
+Example C04_nonvacuous_masked_out :
+  let o := mkFWO None None None None false None false None false None None true false false false in
+  let ub := mkFWO None (Some [Fb]) None None false None false None false None None false false false false in
+  let '(cs, _) := model_cstream None None (Some EqAll) [FUpdate "a" (mkF 1 1 0) o []] (mkFRO (Some [Fa]) false None)
+                    [FUpdate "a" (mkF 0 7 0) ub []; FUpdate "a" (mkF 2 0 0) o []] in
+  map (fun c => (cc_kind c, cc_old c, cc_new c, cc_seed c)) cs =
+  [(KAdd, None, Some (mkF 1 0 0), true); (KUpdate, Some (mkF 1 0 0), Some (mkF 2 0 0), false)].
+Proof. vm_compute. reflexivity. Qed.
+
+(* an explicit ZERO write time (time.Time{} = -62135596800 s) is carried by the event and by the seed
+   of a later subscription, not replaced by the clock *)
+Example C04_nonvacuous_zero_write_time :
+  let z := (-62135596800000000000) in
+  let o := mkFWO (Some z) None None None false None false None false None None true false false false in
+  let '(cs, _) := model_cstream None None None [] (mkFRO None false None) [FUpdate "a" (mkF 1 0 0) o []; FDelete "a" o] in
+  let '(cs2, _) := model_cstream None None None [FUpdate "a" (mkF 1 0 0) o []] (mkFRO None false None) [] in
+  map (fun c => (cc_kind c, cc_time c)) cs = [(KAdd, z); (KRemove, z)] /\
+  map (fun c => (cc_seed c, cc_time c)) cs2 = [(true, z)].
+Proof. vm_compute. split; reflexivity. Qed.
